@@ -136,7 +136,7 @@ MAX_ITER = 400
 
 
 _BUILTINS = {"range": range, "int": int, "str": str, "len": len, "bool": bool, "abs": abs, "divmod": divmod, "min": min, "max": max, "round": round,
-             "float": float}
+             "float": float, "any": any, "all": all, "sum": sum, "sorted": sorted, "tuple": tuple, "list": list}
 _STR_METHODS = {"startswith", "endswith", "split", "replace", "zfill", "ljust", "rjust", "strip", "lstrip", "rstrip", "upper", "lower",
                 "find", "count", "isdigit", "partition", "rpartition", "join", "format"}
 
@@ -264,6 +264,12 @@ def ev(n: ast.AST, env: dict[str, Any], funcs: dict[str, ast.FunctionDef] | None
                 return vars(tgt)["_ctor"](*args, **kws)
             if isinstance(tgt, ClassStub):
                 return tgt(*args, **kws)
+            if tgt in (_dt.timedelta, _dt.date, _dt.datetime, _dt.time) or isinstance(tgt, (types.BuiltinFunctionType, types.FunctionType)) and n.func.id not in env:
+                # a standard-library constructor / function the world put into the globals (timedelta, copysign, ...)
+                try:
+                    return tgt(*args, **kws)
+                except (ValueError, OverflowError, ZeroDivisionError) as e:
+                    raise Raised(f"raise reached: {type(e).__name__}: {e}", type(e).__name__) from None
             if n.func.id == "type" and len(args) == 1 and isinstance(args[0], Obj):
                 return vars(args[0])["_ctor"]
             if n.func.id in _BUILTINS:
